@@ -300,3 +300,12 @@ def impose_steps_only_advance(S, T):
     T.st.heap['init_steps_completed'] = z3.Lambda([bx], If(step_rank(new[bx]) < step_rank(old[bx]), old[bx], new[bx]))
     return []
 
+
+# guarantees of everything edzed runs synchronously (handlers, initialisation routines, ...), imposed constructively on the
+# havocked post-state at call sites of contracts that summarise such code; other spec modules add theirs
+CALLEE_GUARANTEES = [impose_error_write_once, impose_outputs_stay_defined, impose_steps_only_advance]
+
+
+def impose_callee_guarantees(S, T):
+    for f in CALLEE_GUARANTEES: f(S, T)
+
